@@ -123,6 +123,54 @@ def wagner_case(ctx, k, llr):
               {"max_correlation": float(met.max()), "ml_codeword": C[int(met.argmax())].tolist()}, "Wagner output is not a maximum-likelihood codeword", CHK)
 
 
+def wagner_batch_case(ctx, k, llrs, layout):
+    """Wagner on several words at once: (B, n), (B, b.n) and (B1, B2, n) layouts; every word must get an ML codeword."""
+    import torch
+    import kaira.models.fec.encoders as E
+    enc = E.SingleParityCheckCodeEncoder(dimension=k)
+    dec = make_decoder("wagner", enc, {})
+    n = k + 1
+    L = np.asarray(llrs, dtype=np.float32).reshape(-1, n)
+    cell = {"family": "spc", "k": k, "decoder": "wagner", "layout": layout}
+    case = {"kind": "wagner_batch", "k": k, "llr": L.tolist(), "layout": layout}
+    if layout == "batch":
+        x = torch.from_numpy(L)
+    elif layout == "multiblock":
+        if len(L) % 2:
+            L = L[:-1]
+        x = torch.from_numpy(L.reshape(-1, 2 * n))
+    else:
+        if len(L) % 2:
+            L = L[:-1]
+        x = torch.from_numpy(L.reshape(2, -1, n))
+    if len(L) == 0:
+        return
+    ok, out = ctx.call(lambda: dec(x), "C10.b_raises", cell, case, "Wagner decoder raised on a documented batched layout", CHK)
+    if not ok:
+        return
+    out = out.detach().numpy().reshape(-1, k)
+    if out.shape[0] != len(L):
+        ctx.ev()
+        ctx.fail("C10.b_shape", cell, case, list(out.shape), [len(L), k], checker=CHK)
+        return
+    C = RS.codebook_bits(enc.generator_matrix.numpy().astype(np.int64))
+    cws = enc(torch.from_numpy(out.astype(np.float32))).detach().numpy()
+    bad = None
+    for i in range(len(L)):
+        l64 = L[i].astype(np.float64)
+        met = RS.soft_ml_metric(C, l64)
+        got = float((1 - 2 * cws[i]) @ l64)
+        ctx.ev()
+        if got < met.max() - 1e-5 * max(1.0, np.abs(l64).sum()):
+            bad = i
+            break
+    if int(((L < 0).sum(axis=1) % 2 == 1).sum()) >= 1 and len(L) >= 2:
+        ctx.nontrivial("wb", k, layout, hash(L.tobytes()))
+    ctx.cls("wagner_batch_" + layout)
+    if bad is not None:
+        ctx.fail("C10.b_wagner_ml", cell, {**case, "row": bad}, {"decoded": out[bad].astype(int).tolist()}, {"llr": L[bad].tolist()}, "Wagner output for a member of a batch is not a maximum-likelihood codeword", CHK)
+
+
 def forest_strategy(nmax=12):
     @st.composite
     def forest(draw):
@@ -329,6 +377,8 @@ def check_case(ctx, cell, case):
         clean_case(ctx, case["spec"], case["decoder"], opts, case.get("seed", 1))
     elif k == "wagner":
         wagner_case(ctx, case["k"], case["llr"])
+    elif k == "wagner_batch":
+        wagner_batch_case(ctx, case["k"], case["llr"], case["layout"])
     elif k == "forest":
         forest_case(ctx, case["H"], case["llr"], arctanh=case.get("arctanh", True))
     elif k == "minsum":
@@ -376,7 +426,19 @@ def unit_wagner(ctx, n_cases):
             llr.append((1 if v >= 0 else -1) * m * 1e-3)
         wagner_case(ctx, k, llr)
     draw_cases(strat, n_cases, ctx.seed * 131 + 2, f)
-    ctx.sample({"generator": "SPC k=1..10, real vectors with distinct magnitudes"})
+    # batched layouts: rows with and without parity violations mixed, distinct magnitudes per row
+    bstrat = st.tuples(st.integers(1, 8), st.integers(2, 6), st.integers(0, 10 ** 6))
+
+    def g(t):
+        k, B, sd = t
+        r = np.random.RandomState(sd)
+        n = k + 1
+        mags = np.stack([r.permutation(np.arange(1, n + 1)) for _ in range(B)]) * 0.1 + r.uniform(0, 0.05, size=(B, n))
+        signs = np.where(r.rand(B, n) < 0.5, -1.0, 1.0)
+        for layout in ("batch", "multiblock", "3d"):
+            wagner_batch_case(ctx, k, (mags * signs).tolist(), layout)
+    draw_cases(bstrat, max(20, n_cases // 10), ctx.seed * 131 + 12, g)
+    ctx.sample({"generator": "SPC k=1..10, real vectors with distinct magnitudes; batches of 2..6 words in (B,n), (B,2n), (2,B/2,n) layouts"})
 
 
 def unit_forest(ctx, n_cases, nmax, arctanh):
@@ -399,7 +461,12 @@ def unit_perturb(ctx):
     for dname, opts in (("bp", {"iters": 10}), ("minsum", {"iters": 10}), ("minsum", {"iters": 10, "normalized": True})):
         perturb_case(ctx, {"family": "ldpc", "H": H74}, dname, opts, ctx.seed)
         perturb_case(ctx, {"family": "hamming", "mu": 3, "extended": False, "info": "left"}, dname, opts, ctx.seed)
-    ctx.sample({"codes": ["ldpc(7,4)", "hamming(7,4)"], "perturbation": "one LLR of weight 0.05x with the wrong sign"})
+    # soft Reed-Muller (weighted majority): a single weak wrong-sign LLR is outvoted for every RM(r,m)
+    for m in range(2, 5):
+        for r in range(0, m):
+            perturb_case(ctx, {"family": "rm", "r": r, "m": m}, "rm_soft", {}, ctx.seed)
+    perturb_case(ctx, {"family": "spc", "k": 5}, "wagner", {}, ctx.seed)
+    ctx.sample({"codes": ["ldpc(7,4)", "hamming(7,4)", "RM(r,m) m<=4 (soft)", "SPC(6,5) Wagner"], "perturbation": "one LLR of weight 0.05x with the wrong sign"})
 
 
 def units(tier, seed):
